@@ -182,6 +182,34 @@ func sxgMut(args []string) error {
 					}
 				}
 			}
+			// signed dates at the far end of the integer range, behind a genuine signature: seconds that time.Unix cannot represent
+			// (above MaxInt64 - 62135596800 the internal counter wraps to a time ~292e9 years in the PAST) are still dates in the
+			// far future, and the instant of verification lies outside [date, expires]
+			for _, de := range [][2]int64{{1<<63 - 1, 0}, {9223371974719179008, 0}, {9223371974719179007, 0}, {9223371974719179008 + 12345, 3600}, {1 << 62, 0}, {1<<63 - 1, 1<<63 - 1},
+				{1<<63 - 604800, 1<<63 - 1}, {9223371974719179008, 9223371974719179008 + 600}} {
+				now := time.Now().Unix()
+				spf := *sp
+				spf.resph = cloneHeader(sp.resph)
+				spf.reqh = cloneHeader(sp.reqh)
+				spf.date, spf.expires = de[0], de[1]
+				if de[1] < 1<<40 {
+					spf.expires = now + 3600 + de[1]
+				}
+				var signedF []map[string]interface{}
+				ef, err := buildRecordedErr(&spf, kc, &signedF)
+				if err != nil {
+					continue
+				}
+				for _, t := range []int64{now, mid, 0, 1 << 40} {
+					ctx.emitVer(cloneEx(ef), kc, t, 0, signedF, true, nil, false, false, fmt.Sprintf("far-future signed date %d", de[0]))
+				}
+				var fbf bytes.Buffer
+				if ef.Write(&fbf) == nil {
+					if e1, rerr := readBack(fbf.Bytes()); !rerr {
+						ctx.emitVer(e1, kc, now, 0, signedF, true, fbf.Bytes(), true, rerr, fmt.Sprintf("far-future signed date %d (read from the file)", de[0]))
+					}
+				}
+			}
 			// headers that declare something about the payload (a length, a range, an encoding) are signed header fields, not
 			// instructions: the payload handed back is the one the signed digest commits to, whole, and damage behind the
 			// declared length is damage
